@@ -520,6 +520,7 @@ func (d *Decls) Walk(t *Term) {
 		d.consts[t.Op] = t.Sort
 		d.noteSort(t.Sort)
 	case TApp:
+		d.noteSort(t.Sort)
 		if t.UFun {
 			sig := append(append([]string{}, t.ASort...), t.Sort)
 			if old, ok := d.funs[t.Op]; ok && strings.Join(old, ",") != strings.Join(sig, ",") {
